@@ -334,3 +334,27 @@ prop("C11",
                 "process-wide (TotalAlloc) around the call, so the bound carries slack for the carrier tube.",
      technique="hostile-frame and hostile-input fault injection with crash attribution, progress/termination monitors and allocation accounting; race detector",
      assumptions=["go1.26 testing/synctest virtual time"])
+
+prop("C16",
+     level="exploration",
+     parts=[{"engine": "tubes_shutdown", "race": True, "max_cases_per_child": 10, "escalate_stalls": True}],
+     floor={"quick": 150, "thorough": 3000},
+     child_timeout={"quick": 1500, "thorough": 3400},
+     rule="Random concurrent programs: two real Muxers (Config.Timeout 30 virtual s), 1-3 tubes (70 % reliable), one goroutine per tube "
+          "end running 2-9 operations from {Write (0..120000 bytes of a keyed stream), Read (with or without deadline), Close, "
+          "WaitForClose, SetDeadline(past/+d/zero), sleep}, some ends never closing, Close during the initiation handshake, each "
+          "muxer's Stop issued at a programmed time (0..3 s) racing the tube programs, optionally twice concurrently; network: "
+          "healthy, 10 %/50 % loss, FIN-only loss, ACK-only loss, dead from a programmed instant (0..600 ms). Seeded schedule "
+          "perturbation at 47 verif-tagged Yield/Pause points (Gosched, virtual sleeps where no lock is held). Calls are recorded at "
+          "the client boundary (call before, return after). Oracle: every call returns within Config.Timeout + 3 x muxerTimeout + "
+          "10 s (virtual) after the later Stop was issued; no panic; after both Stops returned no goroutine of the bubble is left "
+          "inside the tubes package (stack scan after 8 virtual s, and the bubble's own leak/deadlock detection); Write fails after "
+          "the local Close returned; bytes read are always the peer's stream; after WaitForClose returned Read gives buffered data "
+          "then io.EOF only. A bubble stall is re-executed in real-time mode and judged by the two-dump rule. Non-trivial = an "
+          "execution with a distinct interleaving signature (hash of the observed order of hook points).",
+     level_text="Exploration of programs x schedules x loss patterns with the race detector, virtual-time bounded-termination "
+                "monitors, goroutine-leak scan and post-close API contract checks.",
+     level_note="Termination is bounded progress in virtual time; the read-side contract is judged once closure has completed "
+                "(WaitForClose returned), before that only stream-correctness of returned bytes. Interleavings are widened, not enumerated.",
+     technique="runtime monitoring of concurrent shutdown programs with hook-based schedule perturbation, virtual-time termination bounds, goroutine-leak scan; race detector",
+     assumptions=["go1.26 testing/synctest virtual time"])
